@@ -4,6 +4,7 @@ package main
 
 import (
 	"context"
+	"runtime"
 	"fmt"
 	"io"
 	"net"
@@ -124,9 +125,13 @@ func runRep(t []string) string {
 			ths[i] = &repThread{}
 		}
 		settle := func(i int) bool {
+			// Wait until thread i is finished, parked at a gate, or waiting for a mutex inside
+			// repo code. Retry-based: "blocked" needs three consecutive goroutine dumps that
+			// agree; polling backs off because every dump stops the world.
 			th := ths[i]
-			deadline := time.Now().Add(10 * time.Second)
+			deadline := time.Now().Add(patient())
 			blockedSeen := 0
+			pause := 5 * time.Microsecond
 			for time.Now().Before(deadline) {
 				if th.done.Load() {
 					th.status = stDone
@@ -136,17 +141,21 @@ func runRep(t []string) string {
 					th.status = stParked
 					return true
 				}
-				if gid := th.gid.Load(); gid != 0 && blockedInRepo(gid) {
-					blockedSeen++
-					if blockedSeen >= 3 {
-						th.status = stBlocked
-						return true
+				if pause >= 40*time.Microsecond {
+					if gid := th.gid.Load(); gid != 0 && blockedInRepo(gid) {
+						blockedSeen++
+						if blockedSeen >= 3 {
+							th.status = stBlocked
+							return true
+						}
+					} else {
+						blockedSeen = 0
 					}
-					time.Sleep(50 * time.Microsecond)
-					continue
 				}
-				blockedSeen = 0
-				time.Sleep(10 * time.Microsecond)
+				time.Sleep(pause)
+				if pause < 2*time.Millisecond {
+					pause *= 2
+				}
 			}
 			return false
 		}
@@ -173,6 +182,7 @@ func runRep(t []string) string {
 				cc.g.release(i)
 				// the thread must leave the gate before we look at it again
 				for cc.g.isParked(i) {
+					runtime.Gosched()
 				}
 				return settle(i)
 			case stBlocked:
@@ -337,7 +347,7 @@ func brgOnce(bs, br, start int, closers []string) string {
 	if start == 1 {
 		go func() { defer close(startDone); b.Start() }()
 		// wait until both copy goroutines run (Start is past its unlocked nil checks)
-		deadline := time.Now().Add(5 * time.Second)
+		deadline := time.Now().Add(patient())
 		for time.Now().Before(deadline) {
 			c := 0
 			for _, g := range dumpGoroutines() {
@@ -368,22 +378,22 @@ func brgOnce(bs, br, start int, closers []string) string {
 	}
 	select {
 	case <-startDone:
-	case <-time.After(10 * time.Second):
+	case <-time.After(patient()):
 		return "timeout start"
 	}
 	// own completion paths close the bridge asynchronously
-	deadline := time.Now().Add(5 * time.Second)
+	deadline := time.Now().Add(patient())
 	for b.IsActive() && time.Now().Before(deadline) {
 		time.Sleep(50 * time.Microsecond)
 	}
 	srcB.Close()
 	tgtB.Close()
-	late := withWatchdog(5*time.Second, func() string { b.Close(); b.Close(); return "ok" })
+	late := withWatchdog(patient(), func() string { b.Close(); b.Close(); return "ok" })
 	if late != "ok" {
 		return late
 	}
 	cancel()
-	g, _ := leaked(base, 8*time.Second)
+	g, _ := leaked(base, leakWait())
 	m := cc.get()
 	active := 0
 	if b.IsActive() {
@@ -512,14 +522,14 @@ func spOnce(op string, chunks, cut, n int) string {
 	if rw.cut >= 0 {
 		select {
 		case <-rw.atCut:
-		case <-time.After(5 * time.Second):
+		case <-time.After(patient()):
 			return "timeout cut"
 		}
 	} else {
 		// no cut: the operation completes before the closers start
 		select {
 		case res = <-opRes:
-		case <-time.After(5 * time.Second):
+		case <-time.After(patient()):
 			return "timeout op"
 		}
 	}
@@ -531,11 +541,11 @@ func spOnce(op string, chunks, cut, n int) string {
 	if rw.cut >= 0 {
 		select {
 		case res = <-opRes:
-		case <-time.After(5 * time.Second):
+		case <-time.After(patient()):
 			return "timeout op"
 		}
 	}
-	after := withWatchdog(5*time.Second, func() string {
+	after := withWatchdog(patient(), func() string {
 		_, _, e1 := sp.ReadPacket()
 		_, e2 := sp.WritePacket(&packet.TransferPacket{PacketType: packet.Heartbeat}, false, 0)
 		_, e3 := sp.ReadExact(1)
@@ -543,7 +553,7 @@ func spOnce(op string, chunks, cut, n int) string {
 		sp.Close()
 		return "after r " + errName(e1) + "/" + errName(e3) + " w " + errName(e2) + "/" + errName(e4)
 	})
-	g, _ := leaked(base, 3*time.Second)
+	g, _ := leaked(base, leakWait())
 	return fmt.Sprintf("rclose %d wclose %d op %s %s leak %d", rw.rcloses.Load(), rw.wcloses.Load(), res, after, g)
 }
 
@@ -694,19 +704,19 @@ func flowOnce(mode string, chunk, at int) string {
 	go func() { defer close(startDone); b.Start() }()
 	select {
 	case <-startDone:
-	case <-time.After(20 * time.Second):
+	case <-time.After(patient()):
 		return "timeout start"
 	}
-	deadline := time.Now().Add(5 * time.Second)
+	deadline := time.Now().Add(patient())
 	for b.IsActive() && time.Now().Before(deadline) {
 		time.Sleep(50 * time.Microsecond)
 	}
-	late := withWatchdog(5*time.Second, func() string { b.Close(); return "ok" })
+	late := withWatchdog(patient(), func() string { b.Close(); return "ok" })
 	if late != "ok" {
 		return late
 	}
 	cancel()
-	g, _ := leaked(base, 8*time.Second)
+	g, _ := leaked(base, leakWait())
 	m := cc.get()
 	label := "stats"
 	if mode == "close" {
